@@ -396,6 +396,20 @@ use vstd::prelude::*;
 //@end
 //@extract lightning/src/routing/gossip.rs :: impl ReadableArgs for NetworkGraph :: fn read
 //@slice R15
+    let nodes_count: u64 = Readable::read(reader)?; if $c:cond { return Err(DecodeError::InvalidValue); }
+//@with
+    fn graph_with_that_many_nodes_is_refused(nodes_count: u64) -> bool { $c }
+//@ret r
+//@ensures P C12,C17 a-stored-graph-is-refused-for-its-size-only-if-its-nodes-could-not-be-numbered-with-half-the-u32-counters-and-an-accepted-one-always-can
+    r ==> nodes_count > 0x7fff_ffff,
+    !r ==> nodes_count <= u32::MAX as u64 / 2,
+//@mutant graphs_above_32767_nodes_refused
+    if nodes_count > u32::MAX as u64 / 2 {
+//@with
+    if nodes_count > u16::MAX as u64 / 2 {
+//@end
+//@extract lightning/src/routing/gossip.rs :: impl ReadableArgs for NetworkGraph :: fn read
+//@slice R15
     next_node_counter: AtomicUsize::new($v:seq),
 //@with
     fn next_node_counter_after_read(nodes_count: u64) -> usize { $v }
